@@ -40,6 +40,7 @@ func directUnmarshal(t int, data []byte, budget int64) (p mq.Packet, err error, 
 // c04Exec returns a finding and whether a body was decoded.
 func c04Exec(c *rawCase) (*core.Finding, bool) {
 	budget := stepBudget(len(c.Stream))
+	resetGlobals()
 	if c.Direct >= 0 {
 		data := append([]byte(nil), c.Stream...)
 		_, _, res := directUnmarshal(c.Direct, data, budget)
